@@ -272,7 +272,7 @@ Section CaT.
   Proof.
     change (CaT_u_gate__a v vx) with (1 / (1 + sexp ((v + vx + 81) / 4))).
     change (CaT_u_gate__b v vx)
-      with ((154 / 5 + (1057 / 5 + sexp ((v + vx + 566 / 5) / 5)))
+      with (154 / 5 + (1057 / 5 + sexp ((v + vx + 566 / 5) / 5))
             / (37 / 10 * (1 + sexp ((v + vx + 84) / (16 / 5))))).
     split; [apply inv1p_unit; apply sexp_pos | pos].
   Qed.
